@@ -7,7 +7,6 @@ import (
 	"strings"
 
 	"github.com/AdguardTeam/AdGuardHome/internal/filtering"
-	"github.com/AdguardTeam/golibs/stringutil"
 )
 
 type criterionType int
@@ -79,11 +78,36 @@ func ctDomainOrClientCaseNonStrict(
 	host string,
 	ip string,
 ) (ok bool) {
-	return stringutil.ContainsFold(clientID, term) ||
-		stringutil.ContainsFold(host, term) ||
-		(asciiTerm != "" && stringutil.ContainsFold(host, asciiTerm)) ||
-		stringutil.ContainsFold(ip, term) ||
-		stringutil.ContainsFold(name, term)
+	return containsFold(clientID, term) ||
+		containsFold(host, term) ||
+		(asciiTerm != "" && containsFold(host, asciiTerm)) ||
+		containsFold(ip, term) ||
+		containsFold(name, term)
+}
+
+// containsFold reports whether s contains substr, ignoring the letter case.
+//
+// NOTE:  Do not use stringutil.ContainsFold of golibs until it tries all positions of
+// s: it only looks at the runes equal to the first rune of substr or to its
+// [unicode.SimpleFold], which is the Kelvin sign for 'k' and the long s for
+// 's', so that "kit" isn't found in "My Kitchen".
+func containsFold(s, substr string) (ok bool) {
+	n := len(substr)
+	if n == 0 {
+		return true
+	}
+
+	for i := range s {
+		if len(s)-i < n {
+			return false
+		}
+
+		if strings.EqualFold(s[i:i+n], substr) {
+			return true
+		}
+	}
+
+	return false
 }
 
 // quickMatch quickly checks if the line matches the given search criterion.
